@@ -40,6 +40,7 @@ type switcher struct {
 	loadAll       func(swID string, others int) error // whole set: sw rule with the given id + kb rule + rules on other resources
 	loadSwVariant func(swID string, variant int) error
 	ruleID        func(r base.SentinelRule) string
+	global        bool // the module has one rule list for all resources (system): "kb" is gated by the same two lists
 }
 
 func switchers() []switcher {
@@ -104,7 +105,48 @@ func switchers() []switcher {
 				}
 				return "?"
 			}},
+		// system: list 1 gates by inbound QPS (trigger 0: always reached), list 2 by inbound concurrency or average RT (trigger
+		// 0); inert rules of the remaining metric types come and go. A request that reads part of one list and part of the
+		// other sees no violated rule.
+		{name: "system", btype: base.BlockTypeSystemFlow, global: true,
+			opts: func() []sentinel.EntryOption { return []sentinel.EntryOption{sentinel.WithTrafficType(base.Inbound)} },
+			loadAll: func(id string, others int) error {
+				_, err := system.LoadRules(sysSw(id, others))
+				return err
+			},
+			loadSwVariant: func(id string, v int) error {
+				_, err := system.LoadRules(sysSw(id, v))
+				return err
+			},
+			ruleID: func(r base.SentinelRule) string {
+				if x, ok := r.(*system.Rule); ok {
+					return x.ID
+				}
+				return "?"
+			}},
 	}
+}
+
+func sysSw(id string, variant int) []*system.Rule {
+	var rs []*system.Rule
+	inert := []*system.Rule{{ID: "i0", MetricType: system.Load, TriggerCount: 1e9}, {ID: "i1", MetricType: system.CpuUsage, TriggerCount: 1}, {ID: "i2", MetricType: system.AvgRT, TriggerCount: 1e9}}
+	for i := 0; i < variant%3; i++ {
+		rs = append(rs, inert[(variant+i)%3])
+	}
+	block := &system.Rule{ID: id, MetricType: system.InboundQPS, TriggerCount: 0}
+	if id == "2" {
+		block.MetricType = []system.MetricType{system.Concurrency, system.AvgRT}[variant%2]
+		if block.MetricType == system.AvgRT {
+			var kept []*system.Rule
+			for _, r := range rs {
+				if r.MetricType != system.AvgRT {
+					kept = append(kept, r)
+				}
+			}
+			rs = kept
+		}
+	}
+	return append(rs, block)
 }
 
 var outlierN int64
@@ -241,7 +283,7 @@ func TestRaceAndAtomicSwitch(t *testing.T) {
 						if b == nil {
 							e.Exit()
 							report("a request on resource kb was admitted while another resource's rules were being updated (module %s)", sw.name)
-						} else if id := sw.ruleID(b.TriggeredRule()); id != "kb" {
+						} else if id := sw.ruleID(b.TriggeredRule()); id != "kb" && !(sw.global && (id == "1" || id == "2")) {
 							report("request on kb blocked by rule %q", id)
 						}
 					default: // ordinary traffic with args, attachments, errors, inbound/outbound
@@ -307,6 +349,9 @@ func TestRaceAndAtomicSwitch(t *testing.T) {
 						case 1:
 							_, err = cb.LoadRulesOfResource("t1", []*cb.Rule{{Id: id, Resource: "t1", Strategy: cb.ErrorRatio, RetryTimeoutMs: 5, MinRequestAmount: 2, StatIntervalMs: 1000, Threshold: 0.5}})
 						case 2:
+							if sw.name == "system" {
+								break
+							}
 							_, err = system.LoadRules([]*system.Rule{{ID: id, MetricType: system.Concurrency, TriggerCount: float64(1000 + i%2)}})
 						case 3:
 							err = cb.ClearRulesOfResource("t1")
